@@ -154,6 +154,8 @@ func NewLookupPartitionStrategyWithMetricRegistry(
 	}
 
 	unknownPartition := NewLookupPartitionWithMetricRegistry("<unknown>", 0.0, limit, registry)
+	// like every other partition, the unknown bin gets max(1, ceil(limit * percent)) of the total
+	unknownPartition.UpdateLimit(limit)
 	strategy := &LookupPartitionStrategy{
 		partitions:       partitions,
 		unknownPartition: unknownPartition,
@@ -233,6 +235,7 @@ func (s *LookupPartitionStrategy) SetLimit(limit int) {
 		for _, v := range s.partitions {
 			v.UpdateLimit(int32(limit))
 		}
+		s.unknownPartition.UpdateLimit(int32(limit))
 	}
 }
 
